@@ -72,7 +72,11 @@ def hourly_inputs_3dec(system):
 def round_trip(system, save_calc, edit=None):
     """returns list of (signature suffix, detail)"""
     bad = []
-    j1 = system_to_json(system, save_calculated_attributes=save_calc)
+    try:
+        j1 = system_to_json(system, save_calculated_attributes=save_calc)
+    except Exception as e:  # noqa
+        kind = "dangling-ancestor" if "have a modeling_obj_container" in str(e) else str(e)[:20]
+        return [(f"save-raises:{type(e).__name__}-{kind}", f"{type(e).__name__}: {e}")], None
     text = json.dumps(j1)
     try:
         with watchdog(120):
@@ -88,7 +92,10 @@ def round_trip(system, save_calc, edit=None):
     else:
         d = first_json_diff(strip_calc(j1, system), strip_calc(j2, sys2))
         if d:
-            bad.append(("re-export-differs", d))
+            # D25: a calculated attribute that is empty ("no value") keeps dependency links in an edited model that a
+            # freshly computed model never creates (e.g. a network of a usage pattern left without jobs)
+            d2 = first_json_diff(drop_empty_links(strip_calc(j1, system), system), drop_empty_links(strip_calc(j2, sys2), sys2))
+            bad.append(("re-export-differs" if d2 else "re-export-differs:links-to-empty-results", d2 or d))
     o1, o2 = all_objects(system), all_objects(sys2)
     if set(o1) != set(o2):
         bad.append(("objects-differ", f"only in original: {sorted(set(o1) - set(o2))[:3]}, only in loaded: {sorted(set(o2) - set(o1))[:3]}"))
@@ -118,6 +125,26 @@ def strip_calc(j, system):
                 for a in o.calculated_attributes:
                     od.pop(a, None)
     return out
+
+
+def drop_empty_links(j, system):
+    """j without the ids of empty calculated attributes in the `direct_children_with_id` lists"""
+    from efootprint.abstract_modeling_classes.explainable_objects import EmptyExplainableObject
+    empty = set()
+    for o in all_objects(system).values():
+        for a in o.calculated_attributes:
+            v = getattr(o, a, None)
+            if isinstance(v, EmptyExplainableObject):
+                empty.add(f"{a}-in-{o.id}")
+
+    def walk(x):
+        if isinstance(x, dict):
+            return {k: ([i for i in v if i not in empty] if k == "direct_children_with_id" and isinstance(v, list) else walk(v))
+                    for k, v in x.items()}
+        if isinstance(x, list):
+            return [walk(i) for i in x]
+        return x
+    return walk(j)
 
 
 def first_json_diff(a, b, path=""):
@@ -184,7 +211,7 @@ def shard(args):
     out = {"cases": 0, "violations": [], "samples": [], "kinds": {}, "disagreements": [], "corr": 0}
     for i in range(n):
         kind = "rich" if i % 4 == 0 else "generated"
-        ops = []
+        ops, raw_ops = [], []
         try:
             with watchdog(120):
                 if kind == "rich":
@@ -195,14 +222,22 @@ def shard(args):
                         ops.append("edit job.data_stored")
                 else:
                     spec = specgen.gen_safe_spec(rng, realsys.unit_info, allow_delete=False)
+                    if rng.random() < 0.7:
+                        spec = specgen.with_random_sources(spec, rng)
+                    spec0 = copy.deepcopy(spec)
                     live = history.Live(spec)
                     from harness import engine_oracles as eo
                     for _ in range(rng.randint(0, 3)):
                         op = eo.gen_op(rng, live.spec, True)
                         if op and eo.safe_after(live, op):
                             if live.apply(op)[0] == "err":
+                                # a refused edit leaves a half-recomputed model until it is recovered (C15's
+                                # subject, not C13's): start again from the freshly built model
+                                live = history.Live(copy.deepcopy(spec0))
+                                ops, raw_ops = [], []
                                 break
                             ops.append(eo.op_label(op))
+                            raw_ops.append(op)
                     system = live.rs.system
         except Exception as e:  # noqa
             continue
@@ -215,8 +250,12 @@ def shard(args):
         save_calc = rng.random() < 0.4
         bad, sys2 = round_trip(system, save_calc)
         for sig, detail in bad:
-            out["violations"].append({"signature": f"C13:{sig}" + (":with-calculated" if save_calc else ""), "detail": detail,
-                                      "replay": {"kind": kind, "seed": seed, "index": i, "ops": ops}})
+            trig = ""
+            if sig.startswith("save-raises") and kind == "generated":
+                trig = ":shared-job" if history.has_shared_job(live.spec) else ":no-shared-job"
+            out["violations"].append({"signature": f"C13:{sig}" + (":with-calculated" if save_calc else "") + trig, "detail": detail,
+                                      "replay": {"kind": kind, "seed": seed, "index": i, "ops": ops,
+                                                 "spec": spec0 if kind == "generated" else None, "raw_ops": raw_ops}})
         if not bad:
             d = version9(system)
             if d:
